@@ -556,6 +556,31 @@ func checkBidStrategy(p *core.Prog, r *core.Report, ds *core.Describer, rel stri
 		})
 	}
 	r.Floor("C09.e collector selects in "+tag, nSel, 1)
+	// the deadline strategy's cut-off is fixed to the slot: start of the slot + configured deadline, not a
+	// moment relative to when the auction happened to be invoked
+	if tag == "deadline" {
+		nDl := 0
+		for _, f := range fns {
+			for _, ci := range core.Calls(f, func(c *ssa.CallCommon) bool {
+				n := core.CalleeName(c)
+				return strings.HasSuffix(n, "context.WithDeadline") || strings.HasSuffix(n, "context.WithTimeout")
+			}) {
+				nDl++
+				d := ds.D(ci.Common().Args[1])
+				anchored := d.Any(func(x *core.VD) bool {
+					if x.Kind != "call" || !strings.HasSuffix(x.Name, "StartOfSlot") || len(x.Args) == 0 {
+						return false
+					}
+					a := x.Args[len(x.Args)-1]
+					return a.Kind == "param"
+				})
+				cfg := d.HasFieldSuffix("deadline") || d.Any(func(x *core.VD) bool { return x.Kind == "field" && x.Name == "deadline" })
+				r.Check(anchored && cfg, "C09.e", fmt.Sprintf("%s|%s|cut-off-anchored-to-slot#%d", tag, core.FnKey(f), nDl), p.Pos(ci.Pos()), "the collection ends at StartOfSlot(slot) + the configured deadline",
+					"the strategy's cut-off ("+d.String()+") is not the start of the auctioned slot plus the configured deadline: bids arriving after the deadline into the slot can still win when the auction is invoked late")
+			}
+		}
+		r.Floor("C09.e deadline cut-offs", nDl, 1)
+	}
 
 	// ---- (g) unblinding list ----
 	for _, f := range fns {
